@@ -46,6 +46,22 @@ def joinWords : List Word → List Nat
   | [w] => quoteWord w
   | w :: w' :: ws => quoteWord w ++ 32 :: joinWords (w' :: ws)
 
+/-- a second, universal way to write a word (mixed quoting): a blank is written as `" "`, a quote as `"\""`,
+    every other character (also a backslash) as itself outside quotes, the empty word as `""` -/
+def encChar (c : Nat) : List Nat :=
+  if c = 32 then [34, 32, 34] else if c = 34 then [34, 92, 34, 34] else [c]
+
+def renderWord (w : Word) : List Nat := if w.isEmpty then [34, 34] else w.flatMap encChar
+
+/-- every word followed by a blank (terminator style): expresses EVERY argument vector -/
+def joinTerminated (ws : List Word) : List Nat := ws.flatMap (fun w => renderWord w ++ [32])
+
+/-- words separated by single blanks, no blank at the end -/
+def joinSeparated : List Word → List Nat
+  | [] => []
+  | [w] => renderWord w
+  | w :: w' :: ws => renderWord w ++ 32 :: joinSeparated (w' :: ws)
+
 /-! ### getopt conventions -/
 
 structure SOpt where
